@@ -255,6 +255,53 @@ func c20r2(c *core.Ctx) {
 	lp := p.Pkg("lexer")
 	info := lp.TypesInfo
 	n := 0
+	// token builders: the token constructor, and the functions of the lexer
+	// that return one token and on every path return what a builder gave them
+	// (a helper that reads a two-character operator and builds its token)
+	builders := map[*types.Func]bool{r.newToken: true}
+	for changed := true; changed; {
+		changed = false
+		funcBodies(lp, func(fn *types.Func, fd *ast.FuncDecl) {
+			sig := fn.Type().(*types.Signature)
+			if builders[fn] || sig.Results().Len() != 1 || !core.IsNamed(sig.Results().At(0).Type(), pkgPath("token"), "Token") {
+				return
+			}
+			assigns := localAssignments(info, fd.Body)
+			built := func(e ast.Expr) bool {
+				ce, ok := ast.Unparen(e).(*ast.CallExpr)
+				return ok && builders[calleeOf(info, ce)]
+			}
+			all, any := true, false
+			ast.Inspect(fd.Body, func(nd ast.Node) bool {
+				if _, isLit := nd.(*ast.FuncLit); isLit {
+					return false
+				}
+				ret, ok := nd.(*ast.ReturnStmt)
+				if !ok || len(ret.Results) != 1 {
+					return true
+				}
+				any = true
+				okr := built(ret.Results[0])
+				if id, isId := ast.Unparen(ret.Results[0]).(*ast.Ident); isId {
+					rh := assigns[info.Uses[id]]
+					okr = len(rh) > 0
+					for _, x := range rh {
+						if !built(x) {
+							okr = false
+						}
+					}
+				}
+				if !okr {
+					all = false
+				}
+				return true
+			})
+			if all && any {
+				builders[fn] = true
+				changed = true
+			}
+		})
+	}
 	funcBodies(lp, func(fn *types.Func, fd *ast.FuncDecl) {
 		sig := fn.Type().(*types.Signature)
 		if sig.Results().Len() != 2 || !core.IsNamed(sig.Results().At(0).Type(), pkgPath("token"), "Token") || !isErrorType(sig.Results().At(1).Type()) {
@@ -274,7 +321,7 @@ func c20r2(c *core.Ctx) {
 				e = ast.Unparen(e)
 				if ce, ok := e.(*ast.CallExpr); ok {
 					cal := calleeOf(info, ce)
-					return cal == r.newToken || (cal != nil && cal.Type().(*types.Signature).Results().Len() == 2 && core.IsNamed(cal.Type().(*types.Signature).Results().At(0).Type(), pkgPath("token"), "Token"))
+					return cal == r.newToken || builders[cal] || (cal != nil && cal.Type().(*types.Signature).Results().Len() == 2 && core.IsNamed(cal.Type().(*types.Signature).Results().At(0).Type(), pkgPath("token"), "Token"))
 				}
 				return false
 			}
